@@ -73,7 +73,7 @@ theorem XBound.final {A B lastR r : Nat} {lastS s lastT t : Int} (h : XBound A B
     · have k : -t * 2 ≤ (A : Int) := by linarith
       omega
 
-theorem xgcdLoop_bound (A B : Nat) :
+theorem xgcdLoop_half_bound (A B : Nat) :
     ∀ (fuel lastR r : Nat) (lastS s lastT t : Int), r < fuel → 0 < r → r < lastR →
       XBound A B lastR r lastS s lastT t →
       2 * (xgcdLoop fuel lastR r lastS s lastT t).2.1.natAbs ≤ B ∧
@@ -97,12 +97,12 @@ theorem xgcdLoop_bound (A B : Nat) :
 
 theorem xgcdLoop_init_bound {a b : Nat} (hb : 0 < b) (hlt : b < a) :
     2 * (xgcdLoop (b + 1) a b 1 0 0 1).2.1.natAbs ≤ b ∧ 2 * (xgcdLoop (b + 1) a b 1 0 0 1).2.2.natAbs ≤ a :=
-  xgcdLoop_bound a b (b + 1) a b 1 0 0 1 (by omega) hb hlt
+  xgcdLoop_half_bound a b (b + 1) a b 1 0 0 1 (by omega) hb hlt
     (Or.inl ⟨by decide, by decide, by decide, by decide, by simp, by simp⟩)
 
 /-- `impl ExtendedGcd for $U` on two different positive words: each cofactor is at most half the other
     operand (`2·|ca| ≤ b`, `2·|cb| ≤ a`) -/
-theorem xgcdPrim_bound {a b : Nat} (ha : 0 < a) (hb : 0 < b) (hne : a ≠ b) :
+theorem xgcdPrim_half_bound {a b : Nat} (ha : 0 < a) (hb : 0 < b) (hne : a ≠ b) :
     ∃ res, xgcdPrim a b = .ok res ∧ 2 * res.2.1.natAbs ≤ b ∧ 2 * res.2.2.natAbs ≤ a := by
   unfold xgcdPrim
   rw [if_neg (by omega), if_neg (by omega), if_neg (by omega)]
@@ -352,7 +352,7 @@ theorem lehmerExt_range (W : Nat) (hW : 0 < W) (lhs rhs : Nat) (h0 : 0 < rhs) (h
             omega
           omega
       · have hml := Nat.mod_lt x hy0
-        obtain ⟨pr, hpr, hb1, hb2⟩ := xgcdPrim_bound (a := x % y) (b := y) (by omega) hy0 (by omega)
+        obtain ⟨pr, hpr, hb1, hb2⟩ := xgcdPrim_half_bound (a := x % y) (b := y) (by omega) hy0 (by omega)
         rw [hpr] at h
         obtain ⟨g, cx, cy⟩ := pr
         simp only [] at h hb1 hb2
@@ -515,7 +515,7 @@ theorem gcdExtSmall_range (W : Nat) {lhs rhs : Nat} (h0 : 0 < rhs) (hlt : rhs < 
     have hprim : ∃ res, (if rhs < 2 ^ W then xgcdPrim rhs (lhs % rhs) else xgcdPrimWide W rhs (lhs % rhs))
         = .ok res ∧ 2 * res.2.1.natAbs ≤ lhs % rhs ∧ 2 * res.2.2.natAbs ≤ rhs := by
       split
-      · exact xgcdPrim_bound h0 (by omega) (by omega)
+      · exact xgcdPrim_half_bound h0 (by omega) (by omega)
       · exact xgcdPrimWide_bound W h0 (by omega) (by omega)
     obtain ⟨res, hres, hb1, hb2⟩ := hprim
     rw [hres] at h
